@@ -399,3 +399,67 @@ Example C16_arg_seq_example :
   (forall z, In (EI z) [EI 5; EF (1 # 2)] \/ In (ENI z) [EI 5; EF (1 # 2)] -> ArgSeq.int64 z = true) /\
   ArgSeq.decode (ArgSeq.encode id KSet [EI 1; EF (5 # 2)]) = Some (KList, [EF (1 # 1); EF (5 # 2)]).
 Proof. exact arg_seq_example. Qed.
+
+(* ================= device specifications: gates selected by tags, whole circuits (model: Codec/DeviceGates.v) ================= *)
+From VF Require Import Codec.DeviceGates Codec.DeviceGatesProofs.
+
+(* validate_circuit accepts exactly the circuits whose every operation validate_operation accepts *)
+Theorem C16_device_circuit_all : forall d names ops,
+  DeviceGates.validate_circuit d names ops = true <-> forall o, In o ops -> DeviceGates.validate_operation d names o = true.
+Proof. exact validate_circuit_all. Qed.
+Print Assumptions C16_device_circuit_all.
+
+(* whatever stands before or after an operation of an accepted circuit (the same gate on the same qubits under other tags,
+   say), the operation is valid by itself *)
+Theorem C16_device_circuit_member : forall d names pre o post,
+  DeviceGates.validate_circuit d names (pre ++ o :: post) = true -> DeviceGates.validate_operation d names o = true.
+Proof. exact validate_circuit_member. Qed.
+Print Assumptions C16_device_circuit_member.
+
+Theorem C16_device_circuit_snoc : forall d names pre o,
+  DeviceGates.validate_circuit d names (pre ++ [o]) = DeviceGates.validate_circuit d names pre && DeviceGates.validate_operation d names o.
+Proof. exact validate_circuit_snoc. Qed.
+Print Assumptions C16_device_circuit_snoc.
+
+(* the decision does not depend on the order of the operations *)
+Theorem C16_device_circuit_order : forall d names a b, Permutation.Permutation a b ->
+  DeviceGates.validate_circuit d names a = DeviceGates.validate_circuit d names b.
+Proof. exact validate_circuit_perm. Qed.
+Print Assumptions C16_device_circuit_order.
+
+(* a Z power is a gate of the specification exactly when the variant its tags select is listed *)
+Theorem C16_device_zpow_variant : forall names o, o_kind o = KZPow ->
+  gate_ok names o = has_name (if physical_z (o_tags o) then NPhysicalZ else NVirtualZ) names.
+Proof. exact zpow_needs_its_name. Qed.
+Print Assumptions C16_device_zpow_variant.
+
+Theorem C16_device_fsim_variant : forall names o, o_kind o = KFSim ->
+  gate_ok names o = (via_model (o_tags o) && has_name NFsimViaModel names) || (two_pulse (o_tags o) && has_name NTwoPulseFsim names).
+Proof. exact fsim_needs_its_name. Qed.
+Print Assumptions C16_device_fsim_variant.
+
+Theorem C16_device_other_kinds_ignore_tags : forall names k t t' qs, k <> KZPow -> k <> KFSim ->
+  gate_ok names {| o_kind := k; o_tags := t; o_qubits := qs |} = gate_ok names {| o_kind := k; o_tags := t'; o_qubits := qs |}.
+Proof. exact other_kinds_ignore_tags. Qed.
+Print Assumptions C16_device_other_kinds_ignore_tags.
+
+(* a two-qubit gate other than measurement / wait: its variant is listed and the specification couples the pair *)
+Theorem C16_device_validate_operation_two_qubit : forall s d names k t a b, from_proto s = Some d -> variadic k = false ->
+  (DeviceGates.validate_operation d names {| o_kind := k; o_tags := t; o_qubits := [a; b] |} = true
+   <-> gate_ok names {| o_kind := k; o_tags := t; o_qubits := [a; b] |} = true /\ coupling s a b).
+Proof. exact validate_operation_two_qubit. Qed.
+Print Assumptions C16_device_validate_operation_two_qubit.
+
+(* "an operation is valid once the same gate on the same qubits was accepted under other tags" is false *)
+Theorem C16_device_untagged_cover_refuted : exists d names o o',
+  untagged o = untagged o' /\ DeviceGates.validate_operation d names o = true /\ DeviceGates.validate_circuit d names [o; o'] = false.
+Proof. exact untagged_cover_refuted. Qed.
+Print Assumptions C16_device_untagged_cover_refuted.
+
+Example C16_device_gates_examples :
+  DeviceGates.validate_circuit ex_dev [NVirtualZ; NFsimViaModel] [ex_z false; ex_fsim true; ex_z false] = true /\
+  DeviceGates.validate_circuit ex_dev [NVirtualZ; NFsimViaModel] [ex_fsim true; ex_fsim false] = false /\
+  DeviceGates.validate_circuit ex_dev [NPhysicalZ] [ex_z true; ex_z false] = false /\
+  DeviceGates.validate_circuit ex_dev [NPhysicalZ; NVirtualZ] [ex_z true; ex_z false] = true /\
+  variadic KFSim = false /\ from_proto (to_proto ex_dev) = Some ex_dev.
+Proof. exact device_gates_examples. Qed.
